@@ -85,8 +85,9 @@ def gen_client_ops(rng, n, nhandles, finite, prefix=""):
 def generate(cls, rng):
     target = gen_target(rng)
     finite = not target.get("unbounded")
+    aware = rng.random() < 0.08
     if cls == "coop":
-        return dict(target=target,
+        return dict(target=target, aware=aware,
                     ops=gen_client_ops(rng,
                                        rng.randrange(3, DP.pick(40, 120)),
                                        rng.choice(DP.pick([2, 2, 3, 4],
@@ -111,7 +112,7 @@ def generate(cls, rng):
     else:
         strat = dict(kind="pct", d=rng.choice([1, 2, 3, 4]),
                      horizon=rng.choice([100, 400, 1500]))
-    return dict(target=target, threads=threads,
+    return dict(target=target, threads=threads, aware=aware,
                 sched=dict(strategy=strat, seed=rng.getrandbits(32)))
 
 
@@ -136,6 +137,9 @@ def op_budget(L):
 
 def execute(cls, scenario, ctx):
     tspec = scenario["target"]
+    if scenario.get("aware"):
+        RL.AWARE_OFFSETS = [0, -360, 720]
+        ctx.probe("aware_datetimes")
     unbounded = bool(tspec.get("unbounded"))
     try:
         L = RL.model_list(tspec, bound=120)
